@@ -713,6 +713,7 @@ impl World {
                 ev!(self.tracer, "call", "ep": "", "op": "cancel", "sock": s.addr.to_string());
                 s.cancel.cancel();
             }
+            Step::Together {} => {}
             Step::Sleep { us } => {
                 tokio::time::sleep(Duration::from_micros(*us)).await;
             }
@@ -804,9 +805,18 @@ pub fn run_script(script: &Script, tracer: &Tracer) {
             w.create_sock(c, i);
         }
         quiesce().await;
+        let mut together = false;
         for st in &script.steps {
+            if matches!(st, Step::Together {}) {
+                together = true;
+                continue;
+            }
             w.step(st).await;
-            quiesce().await;
+            if together {
+                together = false;
+            } else {
+                quiesce().await;
+            }
         }
         // end of run: what is still outstanding
         let mut pend: Vec<String> = Vec::new();
